@@ -241,13 +241,21 @@ pub fn scenario_open(seed: u64, report: &mut Report, sig: &'static str) -> (Scen
     let last_tree = steps.iter().rev().find_map(|s| if let Step::SetTree(t) = s { Some(t.clone()) } else { None }).unwrap();
     let mut clock = 1_700_000_000_000_000_000;
     let mut t = mutate_tree(&mut rng, &last_tree, &go, &mut clock);
+    // every file differs between the complete version and the interrupted one, so that taking an entry
+    // from the wrong version (or losing it) always shows in the restored tree
+    for n in t.nodes.values_mut() {
+        if let NodeKind::File(c) = &mut n.kind {
+            c.push(b'!');
+            n.mtime_ns += 1_000_000_000;
+        }
+    }
     // make sure there are enough entries for several hunks
     for i in 0..4 {
         let name = format!("open{i}");
         t.nodes.insert(format!("/{name}"), Node { comps: vec![name], kind: NodeKind::File(vec![b'o', b'0' + i as u8, b'x', b'y', b'z']), mode: 0o644, mtime_ns: clock + i as i64, uid: 0, gid: 0 });
     }
     steps.push(Step::SetTree(t));
-    steps.push(Step::BackupCrash(BackupParamsLite { hunk: 1, block: 8, cap: 6 }, 4, 5));
+    steps.push(Step::BackupCrash(BackupParamsLite { hunk: 2, block: 8, cap: 6 }, 4, 5));
     let case_id = json!({"case_seed": seed, "open_newest": true, "history": history_json(&steps)});
     (build_scenario(&steps, report, &case_id, sig), case_id)
 }
@@ -411,8 +419,24 @@ pub fn run_c10(tier: &str, seed: u64, report: &mut Report) {
     let n_scen = if thorough { 10 } else { 2 };
     for sidx in 0..n_scen {
         let case_seed = seed.wrapping_mul(2971215073).wrapping_add(sidx as u64);
-        let (sc, case_id) = scenario(case_seed, report, "dmg-prefix");
+        let (sc, case_id) = if sidx % 2 == 1 { scenario_open(case_seed, report, "dmg-prefix") } else { scenario(case_seed, report, "dmg-prefix") };
         let mut rng = Rng::new(case_seed ^ 0x10);
+        // interrupted versions (head, no tail): what they restore to BEFORE the damage
+        let pre_map0 = state_map(&sc.pre_state);
+        let complete0: BTreeSet<u32> = complete_bands(&sc.pre_state).into_iter().collect();
+        let mut open_baseline: BTreeMap<u32, Vec<Obs>> = BTreeMap::new();
+        for b in all_bands(&sc.pre_state) {
+            let has_head = pre_map0.get(&format!("{}/BANDHEAD", band_name(b))).map(|v| v.starts_with("head:")).unwrap_or(false);
+            if !complete0.contains(&b) && has_head {
+                let a = fresh_copy(&sc, "base");
+                let (rr, robs) = restore_observe(&a, sc.run.work.path(), &Sel::Band(b), &format!("base{b}"));
+                remove_copy(&a);
+                if !reports_error(&rr) {
+                    report.hit("open-version-baseline");
+                    open_baseline.insert(b, robs);
+                }
+            }
+        }
         let cases = plan(&sc.run.arch, &mut rng, if thorough { 8 } else { 3 }, false);
         let mut session = Session::new();
         let mut pend: Vec<(Value, RunResult, usize, CmpOpts, &'static str)> = Vec::new();
@@ -480,6 +504,26 @@ pub fn run_c10(tier: &str, seed: u64, report: &mut Report) {
                         report.oracle_fail(&format!("damage:silently-dropped-or-altered:{sigbase}"), case.clone(), "a file whose hunk or block was damaged was dropped or altered without any error being reported", json!({"band": band_name(b), "apath": o.apath, "restored": got.contains_key(o.apath.as_str())}));
                         break;
                     }
+                }
+            }
+            // ---- interrupted versions: whatever they restored before the damage is restored now, or an error is
+            //      reported (never silently dropped or altered).  Not promised: the LAST own hunk of the version
+            //      removed or emptied (indistinguishable from an earlier kill: C09 `open_band_trailing_hunk_loss_undetectable`),
+            //      and an index hunk altered but still decodable.
+            for (b, base_obs) in &open_baseline {
+                let Some(Some((rr, robs))) = out.restores.get(b) else { continue };
+                if rr.result.starts_with("result err") || rr.result.starts_with("result panic") || still_decodable_hunk {
+                    continue;
+                }
+                let idx_prefix = format!("{}/i/", band_name(*b));
+                let last_hunk = pre_map0.keys().filter(|k| k.starts_with(&idx_prefix) && file_class(k) == "hunk").max().cloned();
+                if last_hunk.as_deref() == Some(dc.rel.as_str()) && matches!(dc.damage, Damage::Delete | Damage::Truncate0) {
+                    report.hit("undetectable:trailing-hunk-of-open-version");
+                    continue;
+                }
+                let any_error = rr.events.iter().any(|e| e.starts_with("event error"));
+                if !any_error && crate::c01::tree_diff(base_obs, robs).is_some() {
+                    report.oracle_fail(&format!("damage:open-version-silently-changed:{sigbase}"), case.clone(), "after the damage an interrupted version restores differently from before and no error at all is reported", json!({"band": band_name(*b), "diff": crate::c01::tree_diff(base_obs, robs)}));
                 }
             }
             // ---- after a deleted or emptied file a new backup completes and restores exactly
